@@ -95,7 +95,8 @@ def _filter_clusters(rc: RuleCtx, mode: str):
     fi, ev, env, loop, post, fr = _setup(rc, "postprocessing.filter_clusters", Obj("enum", f"ClusterRanking.{mode}"))
     tag = f"postprocessing.filter_clusters[{mode}]"
     knees, pts = env["knees"], env["points"]
-    clusters = env.get("clusters")
+    cl_ = [v for v in env.values() if isinstance(v, Rat) and single_atom(v) is not None and single_atom(v).name.startswith("slot:")]
+    clusters = cl_[0] if len(cl_) == 1 else None
     kp = Vec([anf.opaque("take", c, knees, array=True) for c in pts.items], "point")
     want_cl = anf.opaque("slot:clustering", ev.to_rat(kp), ev.to_rat(env["t"]), array=True)
     if not (isinstance(clusters, Rat) and clusters.equals(want_cl)):
@@ -173,7 +174,8 @@ def _filter_clusters(rc: RuleCtx, mode: str):
     else:
         res.ok("Q4", tag, f"at most one knee per cluster (appends per cluster in [{lo_n}, {hi_n}])")
         # single member: kept iff in hull
-        hull = env.get("hull")
+        hl_ = [v for v in env.values() if isinstance(v, Rat) and single_atom(v) is not None and single_atom(v).name.startswith("call:convex_hull.")]
+        hull = hl_[0] if len(hl_) == 1 else None
         if not isinstance(hull, Rat):
             raise AnalysisError("filter_clusters[hull]: hull not computed before the loop")
         ha = single_atom(hull)
@@ -206,7 +208,8 @@ def _corners(rc: RuleCtx):
     res = rc.res
     fi, ev, env, loop, post, fr = _setup(rc, "postprocessing.filter_clusters_corners", None)
     knees, pts = env["knees"], env["points"]
-    clusters = env.get("clusters")
+    cl_ = [v for v in env.values() if isinstance(v, Rat) and single_atom(v) is not None and single_atom(v).name.startswith("slot:")]
+    clusters = cl_[0] if len(cl_) == 1 else None
     ra = range_args(loop)
     lo = fr.expr(ra[0], env) if ra and len(ra) == 2 else (C(0) if ra and len(ra) == 1 else None)
     hi = fr.expr(ra[-1], env) if ra else None
@@ -254,7 +257,7 @@ def _smooth_ranking(rc: RuleCtx):
             if isinstance(v, Vec) and v.kind == "list":
                 benv[n] = ev.symbol(n + "@list")
         out = ev.eval_loop_body(fi, loop, benv)
-        apps = {e.target: e for e in out.events if e.kind == "append"}
+        app_events = [e for e in out.events if e.kind == "append"]
         ki = _at(knees, i)
         j = _at(knees, C(0))
         klast = _at(knees, C(-1))
@@ -268,16 +271,20 @@ def _smooth_ranking(rc: RuleCtx):
         want_fit = {"left": left, "right": right, "linear": (left + right) / C(2)}[mode]
         peak = anf.opaque("amax", anf.opaque("take", y, knees, array=True), array=False)
         want_w = anf.f_abs(peak - _at(y, ki))
-        ok = "fit" in apps and "weights" in apps and isinstance(apps["fit"].args[0], Rat) and apps["fit"].args[0].equals(want_fit) \
-            and isinstance(apps["weights"].args[0], Rat) and apps["weights"].args[0].equals(want_w) \
-            and apps["fit"].guard.kind == "true" and apps["weights"].guard.kind == "true"
+        # roles: the list that receives the R2 fit and the list that receives the height weight
+        fit_e = [e for e in app_events if isinstance(e.args[0], Rat) and any(a.name == "call:linear_fit.r2" for a in e.args[0].all_atoms())]
+        w_e = [e for e in app_events if e not in fit_e]
+        ok = len(fit_e) == 1 and len(w_e) == 1 and fit_e[0].args[0].equals(want_fit) and isinstance(w_e[0].args[0], Rat) and w_e[0].args[0].equals(want_w) \
+            and fit_e[0].guard.kind == "true" and w_e[0].guard.kind == "true"
+        apps = {"fit": fit_e[0] if fit_e else None, "weights": w_e[0] if w_e else None}
+        fname_, wname_ = (fit_e[0].target if fit_e else "fit"), (w_e[0].target if w_e else "weights")
         ra = range_args(loop)
         rng_ok = ra is not None and isinstance(fr.expr(ra[-1], env), Rat) and fr.expr(ra[-1], env).equals(sym("K"))
         # tail: weights normalised by their sum when non-zero; rankings = fit * weights
-        ev.len_map.update({"fit": sym("K"), "weights": sym("K")})
+        ev.len_map.update({"fit!": sym("K"), "weights!": sym("K")})
         fr2 = Frame(ev, fi, 0)
-        F, W = ev.symbol("fit", True), ev.symbol("weights", True)
-        penv = {"fit": F, "weights": W}
+        F, W = ev.symbol("fit!", True), ev.symbol("weights!", True)
+        penv = {fname_: F, wname_: W}
         fr2.block(post, penv, TRUE)
         val = mk_pw(fr2.returns)
         S = anf.f_sum(W, sym("K"))
@@ -289,7 +296,7 @@ def _smooth_ranking(rc: RuleCtx):
         else:
             res.violation("Q3", fi.module, fi.name, fi.node,
                           f"[{mode}] the ranking score is not (R2 fit of the side(s) selected by the mode) x (relative height |peak - y_k| / sum)",
-                          f"fit {_short(apps['fit'].args[0], 120) if 'fit' in apps else None}; weight {_short(apps['weights'].args[0], 80) if 'weights' in apps else None}; final {_short(val, 120)}",
+                          f"fit {_short(apps['fit'].args[0], 120) if apps['fit'] else None}; weight {_short(apps['weights'].args[0], 80) if apps['weights'] else None}; final {_short(val, 120)}",
                           f"fit {_short(want_fit, 120)}; weight {_short(want_w, 80)}; final {_short(want, 120)}", construct=f"smooth ranking {mode}")
 
 
